@@ -6,8 +6,8 @@ import (
 
 	"github.com/q191201771/lal/pkg/base"
 	"github.com/q191201771/lal/pkg/mpegts"
-	"github.com/q191201771/naza/pkg/filesystemlayer"
 	vrt "github.com/q191201771/lal/pkg/zzvrt"
+	"github.com/q191201771/naza/pkg/filesystemlayer"
 )
 
 // ---- ghost file system: every operation is a crash point at which the invariants are checked ----
@@ -280,6 +280,33 @@ func VerifC10Muxer() {
 				same = vrt.And(same, all[i] == fed[i])
 			}
 			vrt.Assert(same, "segments in order contain the fed packets in order")
+			// re-publish of the same stream name: a second muxer over the same directory. The record playlist keeps
+			// listing every segment of the first session (cleanup is not immediate) and adds the new ones.
+			if vrt.Param("again") == 1 {
+				fs.check = nil
+				m2 := NewMuxer("s1", cfg, c10Obs{})
+				m2.Start()
+				m2.FeedPatPmt(patpmt)
+				t2 := uint64(90000 * 10)
+				for i := 0; i < 3; i++ {
+					f := &mpegts.Frame{Pts: t2, Dts: t2, Pid: mpegts.PidVideo, Sid: mpegts.StreamIdVideo, Key: true}
+					m2.FeedMpegts(vrt.Bytes("ts2", 188), f, true)
+					t2 += 90000 * 4
+				}
+				m2.Dispose()
+				rb2, rok2 := fs.files[m2.recordPlayListFilename]
+				vrt.Assert(rok2, "record playlist exists after the second session")
+				rp2 := c10Parse(rb2)
+				vrt.Assert(rp2.ok && rp2.ended, "record playlist well-formed after the second session")
+				listed := map[string]bool{}
+				for _, e := range rp2.entries {
+					listed[e.name] = true
+				}
+				for _, e := range rp.entries {
+					vrt.Assert(listed[e.name], "the record playlist still lists every segment of the first session after a re-publish")
+				}
+				vrt.Assert(len(rp2.entries) > len(rp.entries), "and lists the segments of the second session")
+			}
 		}
 	}
 	vrt.Cover("end")
